@@ -168,20 +168,24 @@ func (w *World) checkCallers(r *Report, rule string, ref fref, allowed map[strin
 	if fn == nil {
 		return
 	}
-	n := 0
+	roots := map[string]bool{}
 	for _, cs := range w.nodeCallers(fn) {
 		name := w.FName(cs.Caller)
 		key := refStr(ref) + ":caller:" + name
-		n++
 		if why, ok := allowed[name]; ok {
+			roots[name] = true
 			r.OK(rule, key, "allowed caller: "+why, site(w, cs.Site))
 		} else if via, ok := w.onlyReachedFrom(cs.Caller, allowed, 0, map[*ssa.Function]bool{}); ok {
+			for _, v := range strings.Split(via, ", ") {
+				roots[v] = true
+			}
 			r.OK(rule, key, "helper of an allowed caller: every call of it comes from "+via, site(w, cs.Site))
 		} else {
+			roots[name] = true
 			r.Violate(rule, key, fmt.Sprintf("%s is called from %s (closed set of callers: %s)", refStr(ref), name, strings.Join(sortedKeysS(allowed), ", ")), nil, site(w, cs.Site))
 		}
 	}
-	if n < minCallers {
+	if n := len(roots); n < minCallers {
 		r.Undecided(rule, refStr(ref)+":callers", fmt.Sprintf("%d caller(s) found, expected at least %d: the primitive is no longer used where the property needs it", n, minCallers))
 	}
 }
